@@ -218,22 +218,106 @@ class _Trace:
                 raise Unrecognised("unexpected statement: " + type(s).__name__)
 
 
-def analyse(src: str):
-    """-> (checkBefore, checkAfter, afterIsIdentity).  The path a dict takes through `process_object` is followed through
-    private helpers of the same module (inlined up to 4 levels, early returns, roles of renamed variables resolved): what
-    counts is the ORDER of the events `id in dic -> raise`, `obj = klass.from_json_safe(data, dic)`, `dic[id] = obj`, not
-    the shape of the source."""
-    tree = ast.parse(src)
+def _dispatch_type(dec, entry):
+    """`@<entry>.register(T)` -> 'T'; `@<entry>.register` (type taken from the annotation) -> True; else None"""
+    if isinstance(dec, ast.Call) and isinstance(dec.func, ast.Attribute) and dec.func.attr == "register" \
+            and isinstance(dec.func.value, ast.Name) and dec.func.value.id == entry and len(dec.args) == 1:
+        a = dec.args[0]
+        return a.id if isinstance(a, ast.Name) else ast.unparse(a)
+    if isinstance(dec, ast.Attribute) and dec.attr == "register" and isinstance(dec.value, ast.Name) and dec.value.id == entry:
+        return True
+    return None
+
+
+def _is_singledispatch(fn):
+    return any((isinstance(d, ast.Attribute) and d.attr == "singledispatch") or (isinstance(d, ast.Name) and d.id == "singledispatch")
+               for d in fn.decorator_list)
+
+
+def locate(repo: Path, rel: str, name: str, hops: int = 3):
+    """the module (path, ast) that DEFINES the top-level function `name`, following re-exports
+    (`from pkg.mod import name [as alias]`, `from . import`, `alias = name`) up to `hops` modules away"""
+    repo = Path(repo)
+    path = repo / rel
+    for _ in range(hops + 1):
+        tree = ast.parse(path.read_text())
+        if any(isinstance(n, ast.FunctionDef) and n.name == name for n in tree.body):
+            return path, tree
+        nxt = None
+        for n in tree.body:
+            if isinstance(n, ast.ImportFrom):
+                for al in n.names:
+                    if (al.asname or al.name) == name:
+                        mod = n.module or ""
+                        if n.level:
+                            base = path.parent
+                            for _i in range(n.level - 1):
+                                base = base.parent
+                            cand = base / (mod.replace(".", "/")) if mod else base
+                        else:
+                            cand = repo / mod.replace(".", "/")
+                        nxt = (cand.with_suffix(".py") if cand.with_suffix(".py").exists() else cand / "__init__.py", al.name)
+            elif isinstance(n, ast.Assign) and len(n.targets) == 1 and isinstance(n.targets[0], ast.Name) \
+                    and n.targets[0].id == name and isinstance(n.value, ast.Name):
+                name = n.value.id
+                nxt = (path, name)
+        if nxt is None or not Path(nxt[0]).exists():
+            raise Unrecognised(f"no function {name} in {path.name} and no re-export to follow")
+        path, name = Path(nxt[0]), nxt[1]
+    raise Unrecognised(f"{name}: re-exported through more than {hops} modules")
+
+
+def analyse(src, entry: str = "process_object"):
+    """-> (checkBefore, checkAfter, afterIsIdentity).  `src`: source text or a parsed module.  The path a dict takes through
+    `process_object` is followed through private helpers of the same module (inlined up to 4 levels, early returns, roles of
+    renamed variables resolved): what counts is the ORDER of the events `id in dic -> raise`,
+    `obj = klass.from_json_safe(data, dic)`, `dic[id] = obj`, not the shape of the source.  A `functools.singledispatch`
+    entry point is read as the isinstance chain it stands for: the implementation registered for `str` is the reference
+    branch, the one for `dict` the definition branch, the undecorated default (and any other registered type) the else
+    branch."""
+    tree = ast.parse(src) if isinstance(src, str) else src
     funcs = {n.name: n for n in tree.body if isinstance(n, ast.FunctionDef)}
-    fn = funcs.get("process_object")
+    fn = funcs.get(entry)
     if fn is None:
-        raise Unrecognised("no function process_object")
+        raise Unrecognised("no function " + entry)
     args = [a.arg for a in fn.args.args]
     if len(args) != 2:
         raise Unrecognised("process_object does not take (data, dic)")
     tr = _Trace(funcs)
     rets = []
-    tr.walk(fn.body, {args[0]: "data", args[1]: "dic"}, rets)
+    if _is_singledispatch(fn):
+        impls = {}
+        for g in tree.body:
+            if isinstance(g, ast.FunctionDef) and g is not fn:
+                for d in g.decorator_list:
+                    t = _dispatch_type(d, entry)
+                    if t is True:
+                        ann = g.args.args[0].annotation if g.args.args else None
+                        t = ann.id if isinstance(ann, ast.Name) else None
+                    if t:
+                        impls.setdefault(t, []).append(g)
+        if any(len(v) != 1 for v in impls.values()) or "dict" not in impls:
+            raise Unrecognised("singledispatch: no unique implementation registered for dict")
+        # later registrations elsewhere (`process_object.register(T, f)` as a call) would change the dispatch
+        for n in ast.walk(tree):
+            if isinstance(n, ast.Call) and isinstance(n.func, ast.Attribute) and n.func.attr == "register" \
+                    and isinstance(n.func.value, ast.Name) and n.func.value.id == entry and len(n.args) == 2:
+                raise Unrecognised("singledispatch: implementation registered by a call")
+        for t, (g,) in impls.items():
+            prm = [a.arg for a in g.args.args]
+            if len(prm) != 2:
+                raise Unrecognised(f"singledispatch implementation {g.name} does not take (data, dic)")
+            env = {prm[0]: "data", prm[1]: "dic"}
+            if t == "dict":
+                tr.walk(g.body, env, rets)
+            else:
+                n = len(tr.events)
+                tr.walk(g.body, env, [])
+                if len(tr.events) != n:
+                    raise Unrecognised(f"the branch for {t} constructs / registers / tests ids")
+        tr.conditional(fn.body, {args[0]: "data", args[1]: "dic"}, [], "the default (not str, not dict) implementation")
+    else:
+        tr.walk(fn.body, {args[0]: "data", args[1]: "dic"}, rets)
     ev = tr.events
     construct = [i for i, (k, _) in enumerate(ev) if k == "construct"]
     register = [i for i, (k, _) in enumerate(ev) if k == "register"]
@@ -361,13 +445,15 @@ def scan_from_json(repo: Path):
 
 def translate(repo: Path):
     """-> (lean source, recognised: bool, note)"""
-    src = (Path(repo) / "torchtree" / "core" / "utils.py").read_text()
     try:
-        before, after, identity = analyse(src)
+        where, tree = locate(Path(repo), "torchtree/core/utils.py", "process_object")
+        before, after, identity = analyse(tree)
         ok, note = True, f"checkBefore={before} checkAfter={after} afterIsIdentity={identity}"
+        if where.name != "utils.py":
+            note += f" (process_object is defined in {where.relative_to(Path(repo))}, re-exported by core/utils.py)"
     except Unrecognised as e:
         before, after, identity, ok, note = False, False, False, False, f"unrecognised: {e}"
-    except SyntaxError as e:
+    except (SyntaxError, OSError) as e:
         before, after, identity, ok, note = False, False, False, False, f"unparsable: {e}"
     writers, readers, problems = scan_from_json(repo)
     if problems:
